@@ -26,6 +26,7 @@ type genProfile struct {
 	stallFirst     bool // half of the cases begin with a stalled consumer
 	concVoting     bool // concurrent groups: mostly overlapping multi-target votes at the voting round
 	racePairs      bool // most concurrent groups are a light and a heavy caller for the same block hash
+	lostHeader     bool // one case in eight contains: a proposal lost in transit, votes for it, a nil round, the fetch answer, votes for it again
 }
 
 func weighted[T any](t *rapid.T, label string, items []T, weights []int) T {
@@ -259,6 +260,19 @@ func genOp(t *rapid.T, cfg simCfg, p genProfile, depth int) Op {
 func genCase(t *rapid.T, p genProfile) simCase {
 	cfg := genCfg(t, p)
 	ops := rapid.SliceOfN(rapid.Custom(func(t *rapid.T) Op { return genOp(t, cfg, p, 0) }), p.minOps, p.maxOps).Draw(t, "ops")
+	if p.lostHeader && rapid.IntRange(0, 7).Draw(t, "lost-header-macro") == 0 {
+		full := fullMask(cfg.N)
+		kind := rapid.IntRange(0, 1).Draw(t, "lost-votekind")
+		seq := []Op{
+			{K: "ph", NS: true, P: rapid.IntRange(0, cfg.N-1).Draw(t, "lost-proposer"), D: rapid.IntRange(0, 3).Draw(t, "lost-data")},
+			{K: "vote", Kind: kind, T: []VT{{T: 50, S: genMask(t, cfg.N, "lost-signers")}}},
+			{K: "vote", Kind: 1, T: []VT{{T: -1, S: full}}},
+			{K: "fetch", D: 99},
+			{K: "vote", Kind: kind, T: []VT{{T: 50, S: full}}},
+		}
+		at := rapid.IntRange(0, len(ops)).Draw(t, "lost-at")
+		ops = append(ops[:at:at], append(seq, ops[at:]...)...)
+	}
 	if p.stallFirst {
 		switch rapid.IntRange(0, 3).Draw(t, "stallfirst") {
 		case 0:
